@@ -330,8 +330,23 @@ fn admin_val(opts: &ColumnOptions, c: usize, k: u64, v: u64) -> Vec<u8> {
         x.extend_from_slice(b"pre");
         x
     } else {
-        format!("c{c}k{k}v{v}").into_bytes()
+        // lengths spread over the size tiers (also tiers whose file name has a hex letter, and multi-part)
+        let pad = [0usize, 9, 15, 35, 300, 2500, 9000, 40000][((c as u64 + k + v) % 8) as usize];
+        let mut x = format!("c{c}k{k}v{v}|").into_bytes();
+        x.extend(std::iter::repeat(0x5au8 ^ (k as u8)).take(pad));
+        x
     }
+}
+
+/// files of column `c` in the database directory
+fn column_files(dir: &Path, c: usize) -> Vec<String> {
+    let mut v: Vec<String> = std::fs::read_dir(dir)
+        .map(|rd| rd.flatten().map(|e| e.file_name().to_string_lossy().to_string()).collect())
+        .unwrap_or_default();
+    let pre = [format!("table_{c:02}_"), format!("index_{c:02}_"), format!("refcount_{c:02}_")];
+    v.retain(|n| pre.iter().any(|p| n.starts_with(p)));
+    v.sort();
+    v
 }
 
 /// content of a plain (hash / btree) column: key rank -> value id
@@ -471,12 +486,20 @@ pub fn cmd_admin_replay(args: &HashMap<String, String>) -> i32 {
                         let mut o = admin_options(&dir, &cols);
                         catch(|| Db::drop_last_column(&mut o)).map_err(|p| format!("panic: {p}"))?.map_err(|e| format!("drop_last_column: {e}"))?;
                         cols.pop();
+                        let left = column_files(&dir, cols.len());
+                        if !left.is_empty() {
+                            return Err(format!("drop_last_column left files of the dropped column behind: {left:?}"))
+                        }
                     },
                     "Reset" => {
                         let c = st["c"].as_u64().unwrap() as usize - 1;
                         let newo = st["opt"].as_array().and_then(|a| a.first()).map(opts_from_json);
                         let mut o = admin_options(&dir, &cols);
                         catch(|| Db::reset_column(&mut o, c as u8, newo.clone())).map_err(|p| format!("panic: {p}"))?.map_err(|e| format!("reset_column: {e}"))?;
+                        let left = column_files(&dir, c);
+                        if !left.is_empty() {
+                            return Err(format!("reset_column left files of the column behind: {left:?}"))
+                        }
                         if let Some(n) = newo {
                             cols[c] = n;
                         }
@@ -484,6 +507,10 @@ pub fn cmd_admin_replay(args: &HashMap<String, String>) -> i32 {
                     "Clear" => {
                         let c = st["c"].as_u64().unwrap() as usize - 1;
                         catch(|| parity_db::clear_column(&dir, c as u8)).map_err(|p| format!("panic: {p}"))?.map_err(|e| format!("clear_column: {e}"))?;
+                        let left = column_files(&dir, c);
+                        if !left.is_empty() {
+                            return Err(format!("clear_column left files of the column behind: {left:?}"))
+                        }
                     },
                     other => return Err(format!("harness: unknown step {other}")),
                 }
@@ -500,7 +527,30 @@ pub fn cmd_admin_replay(args: &HashMap<String, String>) -> i32 {
                     match catch(|| Db::open(&admin_options(&dir, &cols))) {
                         Ok(Ok(db)) => {
                             let got = admin_project(&db, &cols, nkeys, nvals);
+                            // value iteration of plain hash columns yields exactly the live keys
+                            let mut iter_bad: Option<String> = None;
+                            for (c, o) in cols.iter().enumerate() {
+                                if o.multitree || o.btree_index || o.ref_counted {
+                                    continue
+                                }
+                                let mut n = 0usize;
+                                if db.iter_column_while(c as u8, |_| {
+                                    n += 1;
+                                    true
+                                })
+                                .is_ok()
+                                {
+                                    let live = got[c].iter().filter(|x| **x != 0).count();
+                                    if n != live {
+                                        iter_bad = Some(format!("column {c} after {a}: value iteration yields {n} values, {live} keys are readable"));
+                                    }
+                                }
+                            }
                             drop(db);
+                            if let Some(e) = iter_bad {
+                                bad(e);
+                                break
+                            }
                             let want: Vec<Vec<i64>> = content.iter().map(|r| r.as_array().unwrap().iter().map(|x| x.as_i64().unwrap()).collect()).collect();
                             let wantf: Vec<Vec<i64>> = want.iter().enumerate().map(|(c, r)| if cols.get(c).map_or(false, |o| o.multitree) { vec![] } else { r.clone() }).collect();
                             if got != wantf {
